@@ -294,6 +294,58 @@ func TestC06(t *testing.T) {
 		}
 	})
 
+	// the application lowered the public nesting limit diam.MaxGroupedAVPDepth: whatever
+	// the decoder then does with groups at and beyond the limit (reject the message, or
+	// keep it), a message it returned must not change
+	rec.Suite("lowered-depth-limit", rec.N(600, 40000), func(c *ev.Case) {
+		r := c.R
+		limit := []int{1, 2, 3, 5}[r.IntN(4)]
+		depth := 1 + r.IntN(limit+3)
+		old := diam.MaxGroupedAVPDepth
+		diam.MaxGroupedAVPDepth = limit
+		defer func() { diam.MaxGroupedAVPDepth = old }()
+		mk := func(j byte) []byte {
+			leafs := []*refcodec.Node{
+				{Code: 9015, Flags: 0x40, Kind: refcodec.Address, Fam: 1, B: []byte{10, j, 2, 3}},
+				{Code: 0x00E10001, Kind: refcodec.Unknown, B: bytes.Repeat([]byte{j*17 + 3}, 5+int(j))},
+				{Code: 9001, Flags: 0x40, Kind: refcodec.OctetString, B: bytes.Repeat([]byte{j*29 + 1}, 9)},
+				{Code: 9016, Flags: 0x40, Kind: refcodec.IPv4, B: []byte{192, 0, j, 1}},
+			}
+			cur := leafs
+			for d := 0; d < depth; d++ {
+				cur = []*refcodec.Node{{Code: 9018, Flags: 0x40, Kind: refcodec.Grouped, Kids: cur}}
+			}
+			return refcodec.EncodeMessage(refcodec.Header{Version: 1, Flags: 0x80, Code: 8388000, HopByHop: uint32(j) + 1, EndToEnd: 1}, cur)
+		}
+		c.Class("lowered-limit=%d/depth=%d", limit, depth)
+		w0 := mk(0)
+		m1, err := diam.ReadMessage(bytes.NewReader(w0), ctx.Parser)
+		if err != nil {
+			if depth <= limit {
+				c.Fail(ev.Sig{"op": "setup", "what": "rejected-within-limit"}, w0, nil, "groups nested %d deep rejected with MaxGroupedAVPDepth=%d: %v", depth, limit, err)
+			}
+			c.Event("rejected_beyond_lowered_limit", 1)
+			return
+		}
+		before, err := snap(m1)
+		if err != nil {
+			c.Fail(ev.Sig{"op": "retained-render-panic"}, w0, nil, "rendering a message accepted with MaxGroupedAVPDepth=%d, depth %d: %v", limit, depth, err)
+			return
+		}
+		for j := byte(1); j < 6; j++ {
+			if mj, err := diam.ReadMessage(bytes.NewReader(mk(j)), ctx.Parser); err == nil {
+				mj.WriteTo(io.Discard)
+			}
+		}
+		after, err := snap(m1)
+		if err != nil || !bytes.Equal(after.wire, before.wire) || after.str != before.str || after.hdr != before.hdr {
+			c.Fail(ev.Sig{"op": "retained-changed", "what": "bytes", "how": "lowered-depth-limit"}, w0, map[string]any{"before": ev.Hex(before.wire), "after": ev.Hex(after.wire)},
+				"MaxGroupedAVPDepth=%d, groups nested %d deep: the retained message changed after 5 further reads (err=%v, first difference at byte %d)", limit, depth, err, firstDiff(after.wire, before.wire))
+			return
+		}
+		c.Event("retained_under_lowered_limit", 1)
+	})
+
 	// end-to-end: a handler keeps every message and hands it to a checker that
 	// renders it again after further messages have been received.
 	rec.Suite("conn-retain", rec.N(300, 60000), func(c *ev.Case) {
